@@ -65,11 +65,19 @@ pub fn info_dict(g: &Geometry, pieces_concat: Vec<u8>) -> B {
 
 pub fn build(g: &Geometry, content_seed: u64) -> Torrent {
     let total = g.total() as usize;
-    let content = Rng64::sub(content_seed, "content").bytes(total);
     let n = g.pieces();
     let mut piece_hashes = Vec::with_capacity(n);
     let mut concat = Vec::with_capacity(n * 20);
-    for i in 0..n {
+    if g.phantom {
+        let mut r = Rng64::sub(content_seed, "phantom-hashes");
+        for _ in 0..n {
+            let h = sha1(&r.bytes(8));
+            concat.extend_from_slice(&h);
+            piece_hashes.push(h);
+        }
+    }
+    let content = if g.phantom { Vec::new() } else { Rng64::sub(content_seed, "content").bytes(total) };
+    for i in 0..if g.phantom { 0 } else { n } {
         let start = i * g.piece_len as usize;
         let end = (start + g.piece_len as usize).min(total);
         let h = sha1(&content[start..end]);
